@@ -29,14 +29,17 @@ RULE = ('case = one generated expression (type-directed grammar, depth <= 5, see
         'the wire encoding of (expression, documents); one generated case in five comes from the '
         'wide-number stream (half of its numbers are int64 values of 31 to 63 bits, boundary values '
         'around 2**31, 2**53 and 2**63 included); every run also evaluates the boundary-operand grid '
-        '(each numeric operator on each pair of two fixed lists of boundary operands)')
+        '(each numeric operator on each pair of two fixed lists of boundary operands; '
+        '$dateFromParts, alone and under every date-part operator, on a fixed table of stored parts: '
+        'ends of the calendar ranges, month ends, parts just outside, null / missing / ill-typed parts)')
 
 ASSUMPTIONS = [
     'outside F (model answers "unmodelled"): float results that are not exact dyadic doubles '
     '($divide by 3, $sqrt of a non-square, $exp/$ln/$log/$log10 except at 0/1, $pow with negative '
     'or fractional exponent), -0.0, str() of floats with more than 15 significant digits, of '
     'containers, dates and ObjectIds, non-ASCII case mapping / substr / split, aware datetimes and '
-    'the timezone form of the date operators, $dateToString/$dateFromParts/$dateFromString, '
+    'the timezone form of the date operators, $dateToString, $dateFromParts with a float '
+    'millisecond that is no whole number of microseconds, '
     '$regexMatch, operator arguments that Python iterates as strings or dicts, $let/$map names '
     'that are not strings, $project with a bare 0/1/true/false value (inclusion flag), an int '
     'beyond 2**53 that float() would round next to a float operand ($add / $subtract / $divide / '
@@ -684,7 +687,55 @@ def grid_cases():
     dated = [dict(_grid_doc(0, a), t=gen_expr.DATES[1]) for a in GRID_LEFT + [10 ** 14, -10 ** 14]]
     add({'$add': ['$t', '$a']}, dated)
     add({'$subtract': ['$t', '$a']}, dated)
+    # $dateFromParts on stored parts: the ends of every calendar range, the last day of every
+    # month (leap and common years, 1900 and 2000), parts just outside (carried by the rules),
+    # milliseconds outside 0..999 (carried by the code too), null and missing parts, the first and
+    # last instant Python holds; alone and under every date-part operator
+    full = {'$dateFromParts': {'year': '$y', 'month': '$mo', 'day': '$d', 'hour': '$h',
+                               'minute': '$mi', 'second': '$s', 'millisecond': '$ms'}}
+    add(full, PARTS_DOCS)
+    for op in ('$year', '$month', '$dayOfMonth', '$hour', '$minute', '$second', '$millisecond',
+               '$dayOfYear', '$dayOfWeek', '$week'):
+        add({op: full}, PARTS_DOCS)
+    add({'$toString': full}, PARTS_DOCS)
+    add({'$dateFromParts': {'year': '$y'}}, PARTS_DOCS[:24])
+    add({'$dateFromParts': {'millisecond': '$ms', 'year': '$y', 'day': '$d'}}, PARTS_DOCS)
     return out
+
+
+def _parts_docs():
+    rows = [(1, 1, 1, 0, 0, 0, 0), (9999, 12, 31, 23, 59, 59, 999), (1970, 1, 1, 0, 0, 0, 0),
+            (2020, 2, 29, 13, 14, 15, 123), (2000, 2, 29, 0, 0, 0, 1), (1900, 2, 28, 23, 59, 59, 999),
+            (2019, 2, 28, 12, 0, 0, 0), (2024, 12, 31, 23, 59, 59, 999), (1969, 12, 31, 23, 59, 59, 999),
+            (4, 2, 29, 0, 0, 1, 0), (100, 3, 1, 0, 1, 0, 0), (400, 2, 29, 1, 0, 0, 0)]
+    dim = [31, 28, 31, 30, 31, 30, 31, 31, 30, 31, 30, 31]
+    rows += [(2021, m + 1, dim[m], 6, 30, 30, 500) for m in range(12)]
+    rows += [(2021, m + 1, dim[m] + 1, 0, 0, 0, 0) for m in range(12)]      # one day too many
+    rows += [(2020, 14, 1, 0, 0, 0, 0), (2020, 0, 1, 0, 0, 0, 0), (2020, 3, 0, 0, 0, 0, 0),
+             (2020, -1, 1, 0, 0, 0, 0), (2020, 1, -1, 0, 0, 0, 0), (1900, 2, 29, 0, 0, 0, 0),
+             (2020, 2, 30, 0, 0, 0, 0), (2020, 1, 1, 24, 0, 0, 0), (2020, 1, 1, -1, 0, 0, 0),
+             (2020, 1, 1, 0, 60, 0, 0), (2020, 1, 1, 0, -1, 0, 0), (2020, 1, 1, 0, 0, 60, 0),
+             (2020, 1, 1, 0, 0, -1, 0), (2020, 1, 1, 0, 0, 0, -1), (2020, 1, 1, 0, 0, 0, 1000),
+             (2020, 12, 31, 23, 59, 59, 1000), (2020, 1, 1, 0, 0, 0, 86400000),
+             (2020, 3, 1, 0, 0, 0, -86400001), (2020, 1, 1, 0, 0, 59, 61001),
+             (1, 1, 1, 0, 0, 0, -1), (9999, 12, 31, 23, 59, 59, 1000), (0, 1, 1, 0, 0, 0, 0),
+             (10000, 1, 1, 0, 0, 0, 0), (-1, 1, 1, 0, 0, 0, 0), (2 ** 31, 1, 1, 0, 0, 0, 0),
+             (2020, 2 ** 31, 1, 0, 0, 0, 0), (2020, 1, 1, 0, 0, 0, 10 ** 14),
+             (2020, 1, 1, 0, 0, 0, 1.5), (2020, 1, 1, 0, 0, 0, 0.25), (2020.0, 1, 1, 0, 0, 0, 0),
+             (2020, 1.0, 1, 0, 0, 0, 0), (2020, True, 1, 0, 0, 0, 0), (2020, 1, 1, False, 0, 0, 0),
+             (2020, 'x', 1, 0, 0, 0, 0), (2020, 1, '', 0, 0, 0, 0), (2020, 1, 1, [], 0, 0, 0),
+             ('2020', 1, 1, 0, 0, 0, 0), (2020, 1, 1, 0, 0, 0, 'x'), (2020, 1, 1, 0, 0, {}, 0)]
+    names = ('y', 'mo', 'd', 'h', 'mi', 's', 'ms')
+    docs = [dict(zip(names, r)) for r in rows]
+    base = dict(zip(names, (2020, 2, 29, 13, 14, 15, 123)))
+    for k in names:
+        docs.append(dict(base, **{k: None}))
+        docs.append({n: v for n, v in base.items() if n != k})
+    docs.append({})
+    return [dict(d, _id=0) for d in docs]
+
+
+PARTS_DOCS = _parts_docs()
 
 
 def run(ctx, proof, driver_ok):
@@ -748,6 +799,7 @@ def run(ctx, proof, driver_ok):
         'corpus_cases': len(corpus),
         'boundary_grid': {'cases': len(grid), 'evaluations': grid_evaluations,
                           'operators': GRID_BINARY + GRID_UNARY,
+                          'dateFromParts_part_rows': len(PARTS_DOCS),
                           'operand_pairs_per_binary_operator': len(GRID_LEFT) * len(GRID_RIGHT)},
         'fraction_constant_across_documents': round(constant / float(max(total, 1)), 4),
         'fraction_cases_with_an_error': round(raising / float(max(total, 1)), 4),
